@@ -213,6 +213,24 @@ def check_func(c):
         res.check(abs(f) >= (1 - 1e-6) * best - 1e-300, 'func.max', case,
                   lambda: '|f(x)| = %.12g < max modulus %.12g at x=%s' % (abs(f), best, x), tags + ['func'])
         res.nt((n, d, c['kind'], c.get('js'), c.get('tag'), k))
+        for kloc in (None, 1, 2):
+            res.ev()
+            case2 = dict(c, k=k, k_loc=kloc, ret_all=True)
+            try:
+                with warnings.catch_warnings():
+                    warnings.simplefilter('ignore')
+                    X = np.asarray(teneva.optima_func_tt_beam(A, k, kloc, ret_all=True), dtype=float)
+            except Exception as ex:
+                res.fail('func.raised', case2, 'ret_all raised %s: %s' % (type(ex).__name__, str(ex)[:120]), tags + ['exception'])
+                continue
+            good = X.ndim == 2 and X.shape[1] == d and 1 <= X.shape[0] <= k and np.all(np.isfinite(X)) and np.all(np.abs(X) <= 1 + 1e-12)
+            if res.check(good, 'func.ret_all', case2, lambda: 'ret_all gave shape %s' % (X.shape,), tags):
+                f0 = abs(float(np.prod([cheb.chebval(X[0, j], cfs[j]) for j in range(d)])))
+                fs = [abs(float(np.prod([cheb.chebval(xx[j], cfs[j]) for j in range(d)]))) for xx in X]
+                res.check(f0 >= max(fs) * (1 - 1e-9) - 1e-300, 'func.ret_all.best_first', case2, 'the first returned point is not the best one', tags)
+                if kloc is None or kloc >= 2 or True:
+                    res.check(f0 >= (1 - 1e-6) * best - 1e-300, 'func.max', case2,
+                              lambda: 'ret_all, k_loc=%s: best |f| %.12g < %.12g' % (kloc, f0, best), tags + ['func'])
     res.check(ref.core_bytes(A) == Ab, 'func.input_untouched', c, 'coefficient tensor modified', tags)
     return res
 
